@@ -124,16 +124,16 @@ Verdict checkStructure(Ctx& c, const std::vector<View>& views, const Snap& res, 
         }
         if (!ok && f == sgen::F_TERM && newTerms) for (const auto& t : *newTerms) ok = ok || r->term == t;
         if (!ok && pbt::known(kKnownSelfMention) && mergedIn >= 0) {
-          // listed finding: a merged-in constituent that mentions itself and whose alias is taken in the target gets its
-          // own (already renamed) alias translated a second time
+          // listed finding: a merged-in constituent that mentions itself gets its own (already renamed) alias translated a
+          // second time when aliases of the two schemas collide
           for (const auto& m : members) {
             if (m.first != mergedIn) continue;
             const Row* mo = views[static_cast<size_t>(m.first)].sn->find(m.second);
             bool self = false;
             for (const auto& a : sgen::aliasesOf(sgen::splitField(sgen::fieldOf(*mo, f), f))) self = self || a == mo->alias;
-            bool taken = false;
-            for (size_t w = 0; w < views.size(); ++w) if (static_cast<int>(w) != mergedIn && views[w].sn->findAlias(mo->alias)) taken = true;
-            if (self && taken) return pbt::excluded(kKnownSelfMention);
+            bool collision = false;  // renaming starts with any alias taken in the target (later copies collide with earlier ones)
+            for (size_t w = 0; w < views.size(); ++w) if (static_cast<int>(w) != mergedIn) for (const auto& tr : views[w].sn->rows) collision = collision || views[static_cast<size_t>(mergedIn)].sn->findAlias(tr.alias) != nullptr;
+            if (self && collision) return pbt::excluded(kKnownSelfMention);
           }
         }
         CHECK(ok, what + (f == sgen::F_DEF ? "-definition" : f == sgen::F_CONV ? "-convention" : "-texts"),
@@ -272,13 +272,13 @@ bool buildSecond(const Second& s, RSForm& first, const std::vector<EntityUID>& u
 }
 
 // candidate pairs (k in a, v in b) of one kind with matching generator-side sorts; adds the base equations they need
-std::vector<Eq> genTable(Ctx& c, const Spec& a, const Spec& b, bool sameSchema) {
+std::vector<Eq> genTable(Ctx& c, const Spec& a, const Spec& b, bool sameSchema, int minEq = 0) {
   std::vector<Eq> table;
   std::map<int, int> used;  // key index -> value index
   auto modeOf = [&](Eq& e) { e.mode = c.ipick(1, 3); if (e.mode == 3) e.arg = "nt" + std::to_string(c.ipick(1, 2)); };
   auto add = [&](int k, int v) { if (used.count(k)) return used[k] == v; if (sameSchema && k == v) return false; Eq e; e.k = k; e.v = v; modeOf(e); table.push_back(e); used[k] = v; return true; };
   const int na = static_cast<int>(a.items.size()), nb = static_cast<int>(b.items.size());
-  const int nEq = c.ipick(0, 3);
+  const int nEq = c.ipick(minEq, 3);
   const bool coherent = c.ipick(0, 9) < 7;
   for (int q = 0; q < nEq; ++q) {
     if (!coherent) {
@@ -316,6 +316,10 @@ std::vector<Eq> genTable(Ctx& c, const Spec& a, const Spec& b, bool sameSchema) 
       ok = add(xk, xv);
     }
     if (ok) add(k, v);
+  }
+  if (static_cast<int>(table.size()) < minEq) {  // the coherent attempts found nothing: any pair
+    Eq e; e.k = c.ipick(0, na - 1); e.v = c.ipick(0, nb - 1); modeOf(e);
+    if (!used.count(e.k)) table.push_back(e);
   }
   return table;
 }
@@ -492,14 +496,20 @@ Verdict propSynthesis(Ctx& c) {
 // equation inside one schema
 Spec withDuplicates(Ctx& c, Spec sp, int maxDup, bool& triple) {
   const int nDup = c.ipick(0, maxDup);
+  const int nOrig = static_cast<int>(sp.items.size());
   std::map<int, int> times;
   for (int q = 0; q < nDup; ++q) {
-    const int src = c.ipick(0, static_cast<int>(sp.items.size()) - 1);
+    int src = c.ipick(0, nOrig - 1);
+    if (times.count(src) && !sgen::rare(c, 4)) { for (int t = 0; t < nOrig && times.count(src); ++t) src = (src + 1) % nOrig; }  // mostly distinct sources; three mutual duplicates stay possible
     sgen::Item it = sp.items[static_cast<size_t>(src)];
-    if (it.def.empty() && it.conv.empty() && it.term.empty() && it.text.empty()) it.term = "t1";
+    if (it.def.empty() && it.conv.empty() && it.term.empty() && it.text.empty()) { it.term = "t1"; sp.items[static_cast<size_t>(src)].term = "t1"; }
     it.alias = sgen::nextAlias(sp, it.type);
     sp.items.push_back(it);
     if (++times[src] >= 2) triple = true;
+    // a dependant of the copy: its mentions must be rewritten when the copy is removed
+    const int dep = c.ipick(0, 3);
+    if (dep == 1 && it.sort == 1) { sgen::Item d; d.type = CstType::term; d.alias = sgen::nextAlias(sp, d.type); d.def = it.alias + (c.coin() ? "∪" + sp.items[static_cast<size_t>(src)].alias : std::string()); d.sort = 1; d.b1 = it.b1; sp.items.push_back(d); }
+    else if (dep == 2) { sgen::Item d; d.type = CstType::term; d.alias = sgen::nextAlias(sp, d.type); d.def = "X1"; d.conv = "see " + it.alias; d.text = "about " + sgen::genRefTo(it.alias); d.sort = 1; d.b1 = "X1"; sp.items.push_back(d); }
   }
   return sp;
 }
@@ -509,7 +519,7 @@ Verdict propEquate(Ctx& c) {
   sgen::GenOpts o; o.maxRest = 5;
   bool triple = false;
   const Spec sp = withDuplicates(c, sgen::genSpec(c, o), 2, triple);
-  const auto table = genTable(c, sp, sp, true);
+  const auto table = genTable(c, sp, sp, true, sgen::rare(c, 12) ? 0 : 1);
   c.show << "equate ids=" << idSeed << "\n" << sp.str("   ") << " table:" << eqStr(table, sp, sp);
   sgen::debugShow(c);
   c.exec();
@@ -609,7 +619,7 @@ Verdict propDuplicates(Ctx& c) {
   const uint64_t idSeed = static_cast<uint64_t>(c.pick(0, 9999));
   sgen::GenOpts o; o.maxRest = 4;
   bool triple = false;
-  const Spec sp = withDuplicates(c, sgen::genSpec(c, o), 4, triple);
+  const Spec sp = withDuplicates(c, sgen::genSpec(c, o), 3, triple);
   c.show << "duplicates ids=" << idSeed << "\n" << sp.str("   ");
   sgen::debugShow(c);
   c.exec();
@@ -686,9 +696,9 @@ Verdict propMerge(Ctx& c) {
 
 int main(int argc, char** argv) {
   std::vector<pbt::Prop> props;
-  props.push_back({"synthesis", propSynthesis, 1400, 20000, false, false, "pairs of schemas + equation tables through ops::BinarySynthes"});
-  props.push_back({"equate", propEquate, 1200, 20000, false, false, "one schema + equation table through Ops().IsEquatable / Equate"});
-  props.push_back({"duplicates", propDuplicates, 800, 12000, false, false, "schemas with duplicated constituents through Ops().DeleteDuplicates"});
-  props.push_back({"merge", propMerge, 800, 12000, false, false, "pairs of schemas through Ops().MergeWith"});
+  props.push_back({"synthesis", propSynthesis, 750, 20000, false, false, "pairs of schemas + equation tables through ops::BinarySynthes"});
+  props.push_back({"equate", propEquate, 1000, 20000, false, false, "one schema + equation table through Ops().IsEquatable / Equate"});
+  props.push_back({"duplicates", propDuplicates, 500, 12000, false, false, "schemas with duplicated constituents through Ops().DeleteDuplicates"});
+  props.push_back({"merge", propMerge, 450, 12000, false, false, "pairs of schemas through Ops().MergeWith"});
   return pbt::main(argc, argv, "C12", props);
 }
